@@ -351,6 +351,71 @@ def _after_data_op(w, deck, sl, sh, chart, rec, when, before_blob=None, n_before
     m["rec"] = rec
 
 
+def _chart_data_for(w, slot, rec, want_kind=None):
+    """ChartData object for an add/replace.  With a slot, the SAME object is kept across calls (the 'rolling chart'
+    idiom: build once, keep adding points/categories, re-apply); it lives outside the deck, so it survives restarts."""
+    import copy as _copy
+    if slot is None:
+        return gens.build_chart_data(rec), rec
+    store = w.scratch.setdefault("cd", {})
+    ent = store.get(slot)
+    kind = want_kind or rec["kind"]
+    if ent is not None and ent[1]["kind"] == kind:
+        w.stats.hit("c07_chartdata_object_reused")
+        return ent[0], _copy.deepcopy(ent[1])
+    if rec["kind"] != kind:
+        return gens.build_chart_data(rec), rec
+    ent = store[slot] = [gens.build_chart_data(rec), _copy.deepcopy(rec)]
+    return ent[0], _copy.deepcopy(ent[1])
+
+
+def g_grow(r):
+    return {"slot": r.randint(0, 1), "what": r.choice(["category", "points", "points", "series"]), "n": r.choice([1, 2, 3, 5]), "ser": r.randint(0, 4),
+            "vals": [round(r.uniform(-100, 100), 2) for _ in range(12)], "label": gens._label(r, 8, False), "name": gens._label(r, 8)}
+
+
+@O.op("c07.grow", "c07", weight=2.5)
+@O.gen(g_grow)
+def _grow(w, deck, a):
+    """Add categories / points / a series to a kept ChartData object (and to its recipe, which is the model)."""
+    ent = w.scratch.setdefault("cd", {}).get(a["slot"])
+    if ent is None:
+        raise O.Skip("no kept chart data")
+    cd, rec = ent
+    vals = a["vals"]
+    if rec["kind"] == "cat":
+        if isinstance(rec["categories"], dict) or rec.get("cat_type") != "str":
+            raise O.Skip("only flat string categories are grown")
+        if a["what"] == "category":
+            for k in range(a["n"]):
+                lab = "%s%d" % (a["label"], k)
+                cd.add_category(lab)
+                rec["categories"].append(lab)
+                for i, s_ in enumerate(cd):
+                    s_.add_data_point(vals[(i + k) % len(vals)])
+                    rec["series"][i]["values"].append(vals[(i + k) % len(vals)])
+        elif a["what"] == "series":
+            v = [vals[k % len(vals)] for k in range(len(rec["categories"]))]
+            cd.add_series(a["name"], v)
+            rec["series"].append({"name": a["name"], "values": list(v)})
+        else:
+            raise O.Skip("points only for xy/bubble")
+    else:
+        sers = list(cd)
+        if a["what"] == "series" or not sers:
+            s_ = cd.add_series(a["name"])
+            rec["series"].append({"name": a["name"], "points": []})
+            sers = list(cd)
+            i = len(sers) - 1
+        else:
+            i = a["ser"] % len(sers)
+        for k in range(a["n"]):
+            pt = [vals[k % len(vals)], vals[(k + 1) % len(vals)]] + ([abs(vals[(k + 2) % len(vals)])] if rec["kind"] == "bubble" else [])
+            sers[i].add_data_point(*pt)
+            rec["series"][i]["points"].append(pt)
+    w.stats.hit("c07_chartdata_grown")
+
+
 def g_data_for(r, t, big=False):
     kind = gens.chart_kind(t)
     mx_s = 30 if big else 6
@@ -362,7 +427,8 @@ def g_add(r):
     d = O.g_sl(r)
     t = r.choice(gens.ALL_CHART_TYPES)
     d.update({"type": t, "data": g_data_for(r, t, big=r.random() < 0.15), "x": O.emu(r), "y": O.emu(r),
-              "cx": r.randint(100000, 6000000), "cy": r.randint(100000, 4000000), "via": r.choice(["shapes", "shapes", "shapes", "placeholder"])})
+              "cx": r.randint(100000, 6000000), "cy": r.randint(100000, 4000000), "via": r.choice(["shapes", "shapes", "shapes", "placeholder"]),
+              "slot": r.choice([None, None, 0, 1])})
     return d
 
 
@@ -375,7 +441,9 @@ def _add_chart(w, deck, a):
         raise O.Skip("enough charts")
     rec = a["data"]
     try:
-        cd = gens.build_chart_data(rec)
+        cd, rec = _chart_data_for(w, a.get("slot"), rec)
+        if a["type"] in gens.PIE_TYPES and not rec["series"]:
+            raise O.Skip("pie needs a series")
         if a.get("via") == "placeholder":
             _sl, ph = O.nav_placeholder(w, deck, a, "insert_chart")
             sl = _sl
@@ -415,7 +483,7 @@ def _charts_of(deck):
 
 def g_replace(r):
     return {"chart": r.randint(0, 5), "datas": {k: gens.gen_chart_data(r, k, max_series=r.choice([6, 6, 30]), max_points=r.choice([8, 8, 60]))
-                                                for k in ("cat", "xy", "bubble")}, "held": r.random() < 0.4}
+                                                for k in ("cat", "xy", "bubble")}, "held": r.random() < 0.4, "slot": r.choice([None, None, 0, 1])}
 
 
 @O.op("c07.replace", "c07", weight=6.0)
@@ -442,6 +510,7 @@ def _replace(w, deck, a):
     if "xsd_base" not in m:
         m["xsd_base"] = xsd.validate_blob(chart.part.blob)[1] if "rec" not in m else []
     rec = a["datas"][gens.chart_kind(ct)]
+    cd_obj, rec = _chart_data_for(w, a.get("slot"), rec, want_kind=gens.chart_kind(ct))
     if ct in gens.PIE_TYPES and not rec["series"]:
         raise O.Skip("pie needs a series")
     before = chart.part.blob
@@ -450,7 +519,7 @@ def _replace(w, deck, a):
         # known finding F-10: replace_data cannot add series to a chart that has none (AttributeError)
         pass
     try:
-        chart.replace_data(gens.build_chart_data(rec))
+        chart.replace_data(cd_obj)
     except Exception as e:  # noqa: BLE001
         import traceback
         site = _exc_site(e)
@@ -649,6 +718,20 @@ def pinned_traces(tier, which=("c07",)):
     for name, evs in kf:
         out.append({"property": pid, "seed": "known-%s" % name, "tier": "pinned", "config": {"pinned": True, "chart_checks": list(which)},
                     "start": [{"deck": "default"}], "events": [{"op": "add_slide", "layout": 6}] + evs})
+    # the "rolling chart" idiom: one ChartData object, grown between uses
+    for t, kind in (("LINE", "cat"), ("BAR_CLUSTERED", "cat"), ("XY_SCATTER", "xy"), ("BUBBLE", "bubble")):
+        d0 = _simple(kind, 3, 3) if kind == "cat" else _simple(kind, 3, [2, 3, 1])
+        g = {"vals": [1.5, -2.0, 3.25, 4.0, 5.5, 6.0, 7.0, 8.0, 9.0, 10.0, 11.0, 12.0], "label": "L", "name": "new", "ser": 0}
+        evs = [{"op": "add_slide", "layout": 6}, dict(box, op="c07.add_chart", type=t, data=d0, slot=0),
+               dict(g, op="c07.grow", slot=0, what="category" if kind == "cat" else "points", n=2),
+               {"op": "c07.replace", "chart": 0, "datas": {kind: d0}, "slot": 0},
+               dict(g, op="c07.grow", slot=0, what="points" if kind != "cat" else "category", n=3, ser=1),
+               dict(g, op="c07.grow", slot=0, what="series", n=2),
+               {"op": "reopen", "sink": "seekable", "form": "stream"},
+               {"op": "c07.replace", "chart": 0, "datas": {kind: d0}, "slot": 0},
+               dict(box, op="c07.add_chart", type=t, data=d0, slot=0), {"op": "checkpoint", "sink": "seekable"}, {"op": "restart"}]
+        out.append({"property": pid, "seed": "rolling-%s" % t, "tier": "pinned", "config": {"pinned": True, "chart_checks": list(which)},
+                    "start": [{"deck": "default"}], "events": evs})
     # PowerPoint-authored corpus charts: replace_data on each
     for deck in ("f-cht-replace-data.pptx", "f-cht-charts.pptx", "f-cht-series.pptx", "f-cht-chart-type.pptx"):
         evs = []
